@@ -3,6 +3,8 @@ package props
 import (
 	"math"
 
+	"github.com/DataDog/sketches-go/ddsketch/store"
+
 	"verif/harness/internal/core"
 	"verif/harness/internal/gen"
 	"verif/harness/internal/mon"
@@ -968,6 +970,27 @@ func runC07Doc2Impl(c *core.Ctx) {
 		mon.CheckSketchBinsOnly(c, "grammar:"+target.KindName(), d, want)
 		if c.Failed() {
 			return
+		}
+		// the extreme indexes of both stores are those of the bins that hold weight (blocks of zero counts and
+		// zero-length blocks are legal and hold nothing: they move no extreme)
+		for side, st := range []store.Store{d.I().GetPositiveValueStore(), d.I().GetNegativeValueStore()} {
+			md := want.Pos
+			if side == 1 {
+				md = want.Neg
+			}
+			lo, nonEmpty := md.Min()
+			hi, _ := md.Max()
+			gl, e1 := st.MinIndex()
+			gh, e2 := st.MaxIndex()
+			c.Count("oracle.grammar_extreme_index_checks", 1)
+			if nonEmpty && (e1 != nil || e2 != nil || gl != lo || gh != hi) {
+				c.Failf("grammar.extreme_indexes", "%s store after decoding into %s: MinIndex/MaxIndex = %d(%v)/%d(%v), the stream's non-empty bins span [%d,%d]", []string{"positive", "negative"}[side], target, gl, e1, gh, e2, lo, hi)
+				return
+			}
+			if !nonEmpty && (e1 == nil || e2 == nil) && !st.IsEmpty() {
+				c.Failf("grammar.extreme_indexes", "%s store after decoding into %s holds no weight but reports MinIndex/MaxIndex = %d/%d", []string{"positive", "negative"}[side], target, gl, gh)
+				return
+			}
 		}
 		if !exactDecoder {
 			// emptiness and count must agree with what the stream holds (blocks of zero counts hold nothing)
